@@ -581,6 +581,10 @@ def rule_schema_bfs(crate, prop, tier):
         for b, y, sp in somes:
             good = y == P or (y[0] == "agg" and all(x == mk_field(P, str(k), k) for k, x in enumerate(y[3])))
             o.check(good, tr, "B6-yield-popped", "the yielded item is not the dequeued one", sp)
+            # the dequeued vertex is yielded only after all of its out-neighbours were scanned
+            o.check(fx.holds(b, lambda rel: rel.variant(nl["ev"]["res"]) == "None"), tr, "B3-scan-before-yield",
+                    "the dequeued vertex can be yielded without its out-neighbours having been scanned to exhaustion "
+                    "(vertices reachable only through it are lost)", sp)
         # B5 seeds
         ctor = ctor_of(crate, S)
         if o.check(ctor is not None, tr, "B5-ctor", "constructor `new` not found"):
@@ -652,6 +656,19 @@ def check_fold(crate, o, S, mname, tr, fill, idx_path, val_path):
         if consumer_fold(crate, o, an, fx, tr, mname, fill, idx_path, val_path):
             return
     if len(loops) != 1:
+        IT = "core::iter::traits::iterator::Iterator::"
+        droppers = {IT + k for k in ("skip", "take", "step_by", "filter", "skip_while", "take_while", "nth", "last", "find", "min", "max",
+                                     "min_by_key", "max_by_key", "position", "advance_by")}
+
+        def from_self(t, depth=0):
+            if is_self_iter(an, t):
+                return True
+            return depth < 6 and t[0] == "call" and t[1].startswith(IT) and bool(t[3]) and from_self(t[3][0], depth + 1)
+        dropped = [e for e in an.events if e["k"] == "call" and e["key"] in droppers and e["args"] and from_self(e["args"][0])]
+        if dropped:
+            o.check(False, tr, mname + "-drops-items", "%s() consumes the traversal through %s: items of the traversal are discarded "
+                    "before they are recorded" % (mname, dropped[0]["key"].split("::")[-1]), dropped[0]["span"])
+            return
         o.undecide(tr, mname + "-loop", "%s() consumes the traversal in a way the rule does not interpret (no single loop, "
                    "fold or for_each over self)" % mname)
         return
@@ -906,6 +923,10 @@ def rule_schema_dfs(crate, prop, tier):
                     "a vertex is yielded without a dominating `not visited` test (it can be yielded twice)", sp)
             sts = [ev for ev, i in stores_to(tr, M, u) if const_is(ev["val"], 1) and an.cfg.dominates(ev["b"], b)]
             o.check(bool(sts), tr, "D2-mark-before-yield", "a vertex is yielded without being marked visited", sp)
+            if tr.nloops and not piped:
+                nl_ = tr.nloops[0]
+                o.check(fx.holds(b, lambda rel: rel.variant(nl_["ev"]["res"]) == "None"), tr, "D3-scan-before-yield",
+                        "the popped vertex can be yielded without its out-neighbours having been scanned to exhaustion", sp)
         for ev, i in stores_to(tr, M):
             o.check(const_is(ev["val"], 1) and i == u, tr, "D2-only-mark-popped",
                     "visited[] is written at an index other than the popped vertex, or with a value other than true", ev["span"])
@@ -1162,6 +1183,8 @@ def rule_schema_dj(crate, prop, tier):
             o.check(fx.holds(b, current), tr, "J4-emit-only-current",
                     "a popped entry is emitted without a dominating test `popped key == dist[popped vertex]` "
                     "(a superseded entry would be emitted)", sp)
+            o.check(fx.holds(b, lambda rel: rel.variant(nl["ev"]["res"]) == "None"), tr, "J5-scan-before-yield",
+                    "the popped vertex can be yielded without its out-arcs having been relaxed to exhaustion", sp)
             if nm == "Dijkstra":
                 o.check(y == u, tr, "J7-yield", "the yielded vertex is not the popped one", sp)
             elif nm == "DijkstraDist":
